@@ -2,7 +2,8 @@
   C12 — Immunized items are never evicted.
 -/
 import SV.Immunity.Proofs
-import SV.GenProofs
+import SV.GenProofs.Immunity
+import SV.Immunity.CacheProofs
 namespace SV.Props.C12
 open SV SV.Immunity
 
@@ -48,5 +49,33 @@ theorem source_chunk_config_is_the_models (c : Config) :
     ((c.chunkCfg.maxNumItems : Nat) : Int) = Gen.chunkMaxNumItems c.numChunks c.maxNumItems ∧
     ((c.chunkCfg.maxNumBytes : Nat) : Int) = Gen.chunkMaxNumBytes c.numChunks c.maxNumBytes ∧
     ((c.chunkCfg.numToEvict : Nat) : Int) = Gen.chunkNumItemsToEvict c.numChunks c.numItemsToEvict := GenProofs.chunkCfg_eq c
+
+/-! ### the whole cache (any number of chunks ≥ 1, routing by fnv32) — SV.Immunity.CacheProofs -/
+
+/-- once `ImmunizeKeys keys` has been accepted (capacity gate passed) for a key `k ∈ keys`, then — whatever happens in between
+    except `Remove k` / `Clear` — an item added under `k` (immunity registered BEFORE the item exists) stays retrievable
+    with its original payload through any further history without `Remove k` / `Clear` -/
+theorem cache_protects_accepted_keys {c : Cache} (h : CacheInv c) (keys : List Bytes) (hg : ¬ c.gateRefuses keys)
+    (k p : Bytes) (s : Int) (hs : 0 ≤ s) (hk : k ∈ keys) (ops₁ ops₂ : List CacheOp)
+    (hw₁ : ∀ op ∈ ops₁, op.sizeOk) (hw₂ : ∀ op ∈ ops₂, op.sizeOk)
+    (hrm₁ : CacheOp.rm k ∉ ops₁) (hcl₁ : CacheOp.clear ∉ ops₁) (hrm₂ : CacheOp.rm k ∉ ops₂) (hcl₂ : CacheOp.clear ∉ ops₂)
+    (ha : ((ops₁.foldl Cache.apply (c.immunizeKeys keys).1).hasOrAdd Variant.current k p s).2.2 = true) :
+    (ops₂.foldl Cache.apply ((ops₁.foldl Cache.apply (c.immunizeKeys keys).1).hasOrAdd Variant.current k p s).1).get k
+      = some p := immunize_then_add_protected h keys hg k p s hs hk ops₁ ops₂ hw₁ hw₂ hrm₁ hcl₁ hrm₂ hcl₂ ha
+/-- a key that is immune and resident with payload p stays so through any cache history without `Remove k` / `Clear`
+    (immunisation AFTER insertion is `cprotected_of_immunize` in CacheProofs) -/
+theorem cache_protected_forever {c : Cache} (h : CacheInv c) (k p : Bytes) (ops : List CacheOp) (hw : ∀ op ∈ ops, op.sizeOk)
+    (hp : CProtected c k p) (hrm : CacheOp.rm k ∉ ops) (hcl : CacheOp.clear ∉ ops) :
+    (ops.foldl Cache.apply c).get k = some p := cprotected_run_get h k p ops hw hp hrm hcl
+/-- if all residents of the target chunk are immune and it is at capacity the add is refused; a refused add leaves the
+    WHOLE cache unchanged; an add never overwrites a present key -/
+theorem cache_all_immune_refused (c : Cache) (k p : Bytes) (s : Int)
+    (hall : ∀ it ∈ (c.chunkOf k).items, it.immune = true) (hex : (c.chunkOf k).exceeded c.cfg.chunkCfg = true)
+    (hk : (c.get k).isSome = false) : c.hasOrAdd Variant.current k p s = (c, false, false) :=
+  hasOrAdd_all_immune_refused c k p s hall hex hk
+theorem cache_refusal_changes_nothing (c : Cache) (k p : Bytes) (s : Int) (c' : Cache)
+    (h : c.hasOrAdd Variant.current k p s = (c', false, false)) : c' = c := refused_add_changes_nothing c k p s c' h
+theorem cache_never_overwrites (c : Cache) (k p : Bytes) (s : Int) (hk : (c.get k).isSome = true) :
+    c.hasOrAdd Variant.current k p s = (c, true, false) := hasOrAdd_present c k p s hk
 
 end SV.Props.C12
